@@ -122,4 +122,406 @@ theorem topoEval_agrees (tg : TaskGraph κ V) (order s : List κ) (e : Env κ V)
 
 end
 
+/-! ## as_dask_dict -/
+
+theorem keyOf_inj (sink a b : Nat) (h : keyOf sink a = keyOf sink b) : a = b := by
+  unfold keyOf at h
+  by_cases ha : a = sink <;> by_cases hb : b = sink <;> simp [ha, hb] at h
+  · rw [ha, hb]
+  · exact h
+
+/-- **single_sink_required**: `as_dask_dict` refuses exactly the workflows whose
+    number of output tasks is not one. -/
+theorem single_sink_required (tb : Table) (g : DiGraph) :
+    (∃ d, asDaskDict tb g = .ok d) ↔ g.outputNodes.length = 1 := by
+  unfold asDaskDict
+  cases h : g.outputNodes with
+  | nil => simp
+  | cons a as =>
+    cases as with
+    | nil => simp
+    | cons b bs => simp
+
+/-- **dask_dict_faithful**: one entry per task, in node order; the keys are
+    pairwise distinct; the output task — and only it — has key `'results'`;
+    the value of every task is `(function, *static inputs, *keys of its
+    predecessors in predecessor order)`. -/
+theorem dask_dict_faithful (tb : Table) (g : DiGraph) (d : List Entry) (hnd : g.nodes.Nodup)
+    (h : asDaskDict tb g = .ok d) :
+    ∃ sink, g.outputNodes = [sink] ∧
+      d.map (·.key) = g.nodes.map (keyOf sink) ∧
+      (d.map (·.key)).Nodup ∧
+      (∀ t, keyOf sink t = .results ↔ t = sink) ∧
+      d = g.nodes.map (fun t => ⟨keyOf sink t, tb.get t, (g.predOf t).map (keyOf sink)⟩) := by
+  unfold asDaskDict at h
+  cases ho : g.outputNodes with
+  | nil => simp [ho] at h
+  | cons sink rest =>
+    cases rest with
+    | cons b bs => simp [ho] at h
+    | nil =>
+      simp only [ho, Except.ok.injEq] at h
+      subst h
+      refine ⟨sink, rfl, by simp [List.map_map, Function.comp_def], ?_, ?_, rfl⟩
+      · simp only [List.map_map, Function.comp_def]
+        rw [List.Nodup, List.pairwise_map]
+        exact hnd.imp (fun hne heq => hne (keyOf_inj sink _ _ heq))
+      · intro t
+        unfold keyOf
+        by_cases ht : t = sink <;> simp [ht]
+
+/-! ## Static inputs: dask's graph-literal rules -/
+
+theorem atom_safe (res : Option String) (a : Atom) (h : a.hazard = false) :
+    a.keys = [] ∧ a.dask res = a.literal := by
+  cases a with
+  | s x =>
+    simp only [Atom.hazard] at h
+    have hk : strKey x = none := by
+      cases hx : strKey x with
+      | none => rfl
+      | some k => simp [hx] at h
+    simp [Atom.keys, Atom.dask, Atom.literal, strVal, hk]
+  | ctx => simp [Atom.keys, Atom.dask, Atom.literal]
+  | call g args => simp [Atom.hazard] at h
+
+theorem sarg_safe (res : Option String) (a : SArg) (h : a.hazard = false) :
+    a.keys = [] ∧ a.dask res = a.literal := by
+  cases a with
+  | atom a => exact atom_safe res a h
+  | list xs =>
+    simp only [SArg.hazard, List.any_eq_false] at h
+    have hx : ∀ a ∈ xs, a.keys = [] ∧ a.dask res = a.literal :=
+      fun a ha => atom_safe res a (by simpa using h a ha)
+    constructor
+    · simp only [SArg.keys, List.flatMap_eq_nil_iff]
+      exact fun a ha => (hx a ha).1
+    · simp only [SArg.dask, SArg.literal]
+      rw [List.map_congr_left (fun a ha => (hx a ha).2)]
+
+/-- **static_inputs_literal_partial**: when no static input of any task is a
+    dask graph literal (a `str` equal to the key `'results'`, a tuple headed by
+    a callable, a list containing one), the graph dask evaluates IS the graph
+    of the property: same dependencies (the predecessor keys, in order) and
+    each function receives its static inputs as declared followed by the
+    predecessor values. -/
+theorem static_inputs_literal_partial (d : List Entry)
+    (hsafe : ∀ e ∈ d, ∀ a ∈ e.task.static, a.hazard = false) :
+    daskGraph d = specGraph d := by
+  have hentry : ∀ e ∈ d, e.deps = e.preds ∧ ∀ vals, e.apply vals = e.applySpec vals := by
+    intro e he
+    have hk : e.task.static.flatMap SArg.keys = [] := by
+      simp only [List.flatMap_eq_nil_iff]
+      exact fun a ha => (sarg_safe none a (hsafe e he a ha)).1
+    constructor
+    · simp [Entry.deps, hk]
+    · intro vals
+      simp only [Entry.apply, Entry.applySpec, hk, List.length_nil, if_true, List.drop_zero]
+      rw [List.map_congr_left (fun a ha => (sarg_safe none a (hsafe e he a ha)).2)]
+  unfold daskGraph specGraph
+  congr 1
+  · funext k
+    cases hf : Entry.find d k with
+    | none => rfl
+    | some e =>
+      have he : e ∈ d := List.mem_of_find?_eq_some hf
+      simp [(hentry e he).1]
+  · funext k vals
+    cases hf : Entry.find d k with
+    | none => rfl
+    | some e =>
+      have he : e ∈ d := List.mem_of_find?_eq_some hf
+      simp [(hentry e he).2]
+
+/-- Consequence: without graph literals every admissible schedule of dask's
+    graph yields, at every key it fires, the property's reference value. -/
+theorem execution_matches_spec (d : List Entry)
+    (hsafe : ∀ e ∈ d, ∀ a ∈ e.task.static, a.hazard = false)
+    (s : List Key) (env : Env Key String) (k : Key) (v : String)
+    (hrun : runSeq (daskGraph d) Env.empty s = some env) (hk : env k = some v) :
+    den (specGraph d) s.length k = some v := by
+  rw [static_inputs_literal_partial d hsafe] at hrun
+  exact schedule_sound _ s env k v hrun hk
+
+/-- The full statement is FALSE of the unchanged code (F7).  Witness: task 0
+    with the static input `'results'` feeding the output task 1.  The property's
+    evaluation has a value; in dask's reading task 0 depends on `'results'`,
+    which depends on task 0: no firing order reaches `'results'` (dask raises
+    `RuntimeError: Cycle detected`). -/
+def f7Dict : List Entry :=
+  [⟨.task 0, ⟨0, false, [.atom (.s "results")]⟩, []⟩, ⟨.results, ⟨1, false, []⟩, [.task 0]⟩]
+
+theorem static_splice_witness :
+    (topoEval f7Dict).isSome = true ∧ (match (daskGet f7Dict).1 with | .error .cycle => true | _ => false) = true ∧
+    (daskGraph f7Dict).deps (.task 0) = [.results] ∧ (specGraph f7Dict).deps (.task 0) = [] := by
+  refine ⟨by decide, by decide, by decide, by decide⟩
+
+/-- … and a static tuple headed by a callable is a hazard (it is executed),
+    so the partial theorem's hypothesis excludes it. -/
+theorem static_call_is_hazard (g : Nat) (args : List String) :
+    (SArg.atom (.call g args)).hazard = true ∧ (SArg.list [.s "x", .call g args]).hazard = true := by
+  simp [SArg.hazard, Atom.hazard]
+
+/-! ## Predecessor order: what `execute_workflow` hands to the dispatcher -/
+
+/-- `G.copy()` (done by `Workflow(builder)` and `WorkflowBuilder(workflow)`)
+    keeps nodes, node order, the edge set and well-formedness, and leaves every
+    predecessor list in node order. -/
+theorem copy_exact (g : DiGraph) (h : WF g) :
+    WF g.copy ∧ g.copy.nodes = g.nodes ∧ (∀ e, e ∈ g.copy.edges ↔ e ∈ g.edges) ∧
+    ∀ v, (g.copy.predOf v).Sublist g.copy.nodes :=
+  ⟨copy_wf h, rfl, fun _ => copy_edges_mem h, fun v => copy_pred_sublist h.nodupEdges v⟩
+
+theorem executedWorkflow_eq (st : St) (g : DiGraph) :
+    executedWorkflow st g =
+      ((insertContext (relabelPass st g).1 (relabelPass st g).2).1,
+       (insertContext (relabelPass st g).1 (relabelPass st g).2).2.copy) := rfl
+
+/-- The stable partition "tasks that do not take the context first". -/
+def ctxLast (l : List Task) : List Task :=
+  l.filter (fun t => !t.takesCtx) ++ l.filter (fun t => t.takesCtx)
+
+/-- What the dispatcher should see of a task: the context in front of the
+    static inputs iff the function takes it. -/
+def withCtx (t : Task) : Task := if t.takesCtx then addCtx t else t
+
+theorem map_withCtx_ctxLast (l : List Task) :
+    (ctxLast l).map withCtx =
+      l.filter (fun t => !t.takesCtx) ++ (l.filter (fun t => t.takesCtx)).map addCtx := by
+  unfold ctxLast
+  rw [List.map_append]
+  congr 1
+  · conv => rhs; rw [← List.map_id (l.filter (fun t => !t.takesCtx))]
+    apply List.map_congr_left
+    intro t ht
+    have := (List.mem_filter.mp ht).2
+    simp at this
+    simp [withCtx, this]
+  · apply List.map_congr_left
+    intro t ht
+    have := (List.mem_filter.mp ht).2
+    simp [withCtx, this]
+
+/-- **pred_order_after_relabel**: for every well-formed workflow graph (any
+    size) and any table of tasks, the workflow that `execute_workflow` hands to
+    the dispatcher (copy, relabel-every-task pass, `insert_context`, copy)
+    * is well formed,
+    * lists, in node order, the ORIGINAL tasks in their original order with the
+      context-taking tasks stably moved to the end (and given the context),
+    * has every predecessor list in that node order.
+    So a task receives the results of its predecessors in the order in which
+    they entered the workflow, EXCEPT that predecessors whose function takes
+    `context` come after those that do not. -/
+theorem pred_order_after_relabel (st : St) (g : DiGraph) (hwf : WF g)
+    (hfresh : ∀ x ∈ g.nodes, x < st.next) :
+    WF (executedWorkflow st g).2 ∧
+    (executedWorkflow st g).2.nodes.map (executedWorkflow st g).1.tb.get =
+      (ctxLast (g.nodes.map st.tb.get)).map withCtx ∧
+    ∀ v, ((executedWorkflow st g).2.predOf v).Sublist (executedWorkflow st g).2.nodes := by
+  rw [executedWorkflow_eq]
+  obtain ⟨hwf1, hnodes1, hnext1, hmap1⟩ := relabelPass_spec st g hwf hfresh
+  have hfresh1 : ∀ x ∈ (relabelPass st g).2.nodes, x < (relabelPass st g).1.next := by
+    intro x hx
+    rw [hnodes1] at hx
+    rw [hnext1]
+    simp at hx
+    omega
+  obtain ⟨hwf2, hmap2⟩ := insertContext_spec _ _ hwf1 hfresh1
+  refine ⟨copy_wf hwf2, ?_, fun v => copy_pred_sublist hwf2.nodupEdges v⟩
+  simp only [copy_nodes]
+  rw [hmap2, hmap1, map_withCtx_ctxLast]
+
+/-- The same for the workflow `call_workflow` submits (copy, `insert_context`, copy). -/
+theorem pred_order_call_workflow (st : St) (g : DiGraph) (hwf : WF g)
+    (hfresh : ∀ x ∈ g.nodes, x < st.next) :
+    WF (calledWorkflow st g).2 ∧
+    (calledWorkflow st g).2.nodes.map (calledWorkflow st g).1.tb.get =
+      (ctxLast (g.nodes.map st.tb.get)).map withCtx ∧
+    ∀ v, ((calledWorkflow st g).2.predOf v).Sublist (calledWorkflow st g).2.nodes := by
+  have heq : calledWorkflow st g = ((insertContext st g.copy).1, (insertContext st g.copy).2.copy) := rfl
+  rw [heq]
+  obtain ⟨hwf2, hmap2⟩ := insertContext_spec st g.copy (copy_wf hwf) hfresh
+  refine ⟨copy_wf hwf2, ?_, fun v => copy_pred_sublist hwf2.nodupEdges v⟩
+  simp only [copy_nodes] at hmap2 ⊢
+  rw [hmap2, map_withCtx_ctxLast]
+
+/-- **pred_order_entered_partial**: when no context-taking task entered the
+    workflow before a task that does not take it (decidable: the stable
+    partition is the identity — e.g. no task or every task takes the context),
+    the executed workflow lists the tasks exactly in entering order. -/
+theorem pred_order_entered_partial (st : St) (g : DiGraph) (hwf : WF g)
+    (hfresh : ∀ x ∈ g.nodes, x < st.next)
+    (hsorted : ctxLast (g.nodes.map st.tb.get) = g.nodes.map st.tb.get) :
+    (executedWorkflow st g).2.nodes.map (executedWorkflow st g).1.tb.get =
+      (g.nodes.map st.tb.get).map withCtx := by
+  rw [(pred_order_after_relabel st g hwf hfresh).2.1, hsorted]
+
+/-- The full statement ("in the order in which the predecessor tasks entered
+    the workflow") is FALSE of the unchanged code.  Witness: tasks enter in the
+    order 1 (takes `context`), 0, 2 and task 2 depends on both; the executed
+    workflow lists 0, 2, 1 and task 2's predecessors are (0, 1): task 2 receives
+    task 0's result before task 1's although task 1 entered first. -/
+def ctxWitnessTable : Table := [(0, ⟨0, false, []⟩), (1, ⟨1, true, []⟩), (2, ⟨2, false, []⟩)]
+def ctxWitnessGraph : DiGraph := ⟨[1, 0, 2], [(1, 2), (0, 2)]⟩
+
+theorem pred_order_context_witness :
+    let r := executedWorkflow ⟨ctxWitnessTable, 1000⟩ ctxWitnessGraph
+    ctxWitnessGraph.predOf 2 = [1, 0] ∧
+    r.2.nodes.map (fun t => (r.1.tb.get t).name) = [0, 2, 1] ∧
+    (r.2.nodes.flatMap (fun t => if (r.1.tb.get t).name = 2 then (r.2.predOf t).map (fun p => (r.1.tb.get p).name) else []))
+      = [0, 1] := by
+  decide
+
+/-! ## Builder operations keep exactly the declared tasks and edges -/
+
+theorem addTask_fold (g : DiGraph) (t : Nat) (ps : List Nat) :
+    addTask g t (some ps) = (g.addNode t).addEdgesFrom (ps.map (fun p => (p, t))) := by
+  unfold addTask addEdgesFrom
+  simp only
+  generalize g.addNode t = g'
+  induction ps generalizing g' with
+  | nil => rfl
+  | cons p ps ih => simp only [List.foldl_cons, List.map_cons]; exact ih _
+
+/-- **builder_ops_exact (add_task)**: afterwards the tasks are the old ones, the
+    added one and the named predecessors; the edges are the old ones and one
+    edge from every named predecessor; old tasks keep their positions. -/
+theorem add_task_exact (g : DiGraph) (t : Nat) (ps : List Nat) (h : WF g) :
+    WF (addTask g t (some ps)) ∧
+    (∀ x, x ∈ (addTask g t (some ps)).nodes ↔ x ∈ g.nodes ∨ x = t ∨ x ∈ ps) ∧
+    (∀ e, e ∈ (addTask g t (some ps)).edges ↔ e ∈ g.edges ∨ ∃ p ∈ ps, e = (p, t)) := by
+  rw [addTask_fold]
+  refine ⟨addEdgesFrom_wf _ _ (addNode_wf h), ?_, ?_⟩
+  · intro x
+    rw [addEdgesFrom_nodes_mem, addNode_nodes_mem]
+    constructor
+    · rintro ((h1 | h1) | ⟨e, he, h1⟩)
+      · exact Or.inl h1
+      · exact Or.inr (Or.inl h1)
+      · obtain ⟨p, hp, rfl⟩ := List.mem_map.mp he
+        rcases h1 with h1 | h1
+        · exact Or.inr (Or.inr (h1 ▸ hp))
+        · exact Or.inr (Or.inl h1)
+    · rintro (h1 | h1 | h1)
+      · exact Or.inl (Or.inl h1)
+      · exact Or.inl (Or.inr h1)
+      · exact Or.inr ⟨(x, t), List.mem_map.mpr ⟨x, h1, rfl⟩, Or.inl rfl⟩
+  · intro e
+    rw [addEdgesFrom_edges_mem, addNode_edges]
+    simp only [List.mem_map]
+    constructor
+    · rintro (h1 | ⟨p, hp, rfl⟩)
+      · exact Or.inl h1
+      · exact Or.inr ⟨p, hp, rfl⟩
+    · rintro (h1 | ⟨p, hp, rfl⟩)
+      · exact Or.inl h1
+      · exact Or.inr ⟨p, hp, rfl⟩
+
+theorem add_task_no_preds (g : DiGraph) (t : Nat) (h : WF g) :
+    WF (addTask g t none) ∧ (∀ x, x ∈ (addTask g t none).nodes ↔ x ∈ g.nodes ∨ x = t) ∧
+    (addTask g t none).edges = g.edges :=
+  ⟨addNode_wf h, fun _ => addNode_nodes_mem, addNode_edges⟩
+
+/-- **builder_ops_exact (replace_task)** with a new task object: the replaced
+    task is gone, the new one is LAST in node order, all other tasks keep their
+    order, and the edges are exactly the old edges with the task renamed.
+    Replacing a task that is not in the workflow, or by itself, changes nothing. -/
+theorem replace_task_exact (g : DiGraph) (old new : Nat) (h : WF g) (ho : old ∈ g.nodes) (hn : new ∉ g.nodes) :
+    WF (replaceTask g old new) ∧
+    (replaceTask g old new).nodes = g.nodes.filter (fun x => x != old) ++ [new] ∧
+    (∀ e, e ∈ (replaceTask g old new).edges ↔ ∃ e0 ∈ g.edges, e = (ren old new e0.1, ren old new e0.2)) :=
+  ⟨relabel1_wf h, relabel1_nodes_fresh h ho hn,
+   fun _ => relabel1_edges_mem h ho (fun heq => hn (by rw [heq]; exact ho))⟩
+
+theorem replace_task_noop (g : DiGraph) (old new : Nat) (h : old ∉ g.nodes ∨ new = old) :
+    replaceTask g old new = g := by
+  unfold replaceTask relabel1
+  rcases h with h | h
+  · simp [h]
+  · simp [h]
+
+/-- The connection rule of `insert_workflow`: N:N pairs up in order, 1 input
+    takes every output, 1 output feeds every input, anything else is refused. -/
+theorem connect_rule (outs ins : List Nat) :
+    (ins.length = outs.length → connectEdges outs ins = .ok ((ins.zip outs).map (fun p => (p.2, p.1)))) ∧
+    (∀ i, ins = [i] → outs.length ≠ 1 → connectEdges outs ins = .ok (outs.map (fun o => (o, i)))) ∧
+    (∀ o, outs = [o] → ins.length ≠ 1 → connectEdges outs ins = .ok (ins.map (fun i => (o, i)))) ∧
+    (ins.length ≠ outs.length → ins.length ≠ 1 → outs.length ≠ 1 → connectEdges outs ins = .error .valueError) := by
+  refine ⟨?_, ?_, ?_, ?_⟩
+  · intro h; simp [connectEdges, h]
+  · rintro i rfl h
+    have : ¬ (1 = outs.length) := fun h' => h h'.symm
+    simp [connectEdges, this]
+  · rintro o rfl h
+    have h' : ¬ (ins.length = 1) := h
+    unfold connectEdges
+    simp only [List.length_cons, List.length_nil, Nat.zero_add, beq_iff_eq, h', if_false]
+    cases ins with
+    | nil => rfl
+    | cons a as =>
+      cases as with
+      | nil => simp at h
+      | cons b bs => rfl
+  · intro h1 h2 h3
+    unfold connectEdges
+    simp only [beq_iff_eq, h1, if_false]
+    cases ins with
+    | nil =>
+      cases outs with
+      | nil => simp at h1
+      | cons o os =>
+        cases os with
+        | nil => simp at h3
+        | cons _ _ => rfl
+    | cons a as =>
+      cases as with
+      | nil => simp at h2
+      | cons b bs =>
+        cases outs with
+        | nil => rfl
+        | cons o os =>
+          cases os with
+          | nil => simp at h3
+          | cons _ _ => rfl
+
+/-- **builder_ops_exact (insert_workflow)**: when the connection is accepted,
+    the tasks are those of both workflows (plus named predecessors), the edges
+    those of both workflows plus exactly the connecting edges of the rule. -/
+theorem insert_workflow_exact (g other : DiGraph) (preds : Option (List Nat)) (es : List (Nat × Nat))
+    (hg : WF g) (ho : WF other)
+    (hc : connectEdges (insertOuts g preds) other.inputNodes = .ok es) :
+    (insertWorkflow g other preds).2 = none ∧
+    WF (insertWorkflow g other preds).1 ∧
+    (∀ x, x ∈ (insertWorkflow g other preds).1.nodes ↔
+      x ∈ g.nodes ∨ x ∈ other.nodes ∨ ∃ e ∈ es, x = e.1 ∨ x = e.2) ∧
+    (∀ e, e ∈ (insertWorkflow g other preds).1.edges ↔ e ∈ g.edges ∨ e ∈ other.edges ∨ e ∈ es) := by
+  unfold insertWorkflow
+  simp only [hc]
+  refine ⟨trivial, addEdgesFrom_wf _ _ compose_wf, ?_, ?_⟩
+  · intro x
+    rw [addEdgesFrom_nodes_mem, compose_nodes_mem hg ho, or_assoc]
+  · intro e
+    rw [addEdgesFrom_edges_mem, compose_edges_mem hg ho, or_assoc]
+
+/-- When the connection is refused (`ValueError`), the builder has nevertheless
+    been replaced by the composition: the refusal is not atomic
+    (finding `insert-refused-but-composed`). -/
+theorem insert_workflow_refusal (g other : DiGraph) (preds : Option (List Nat)) (e : Err)
+    (hc : connectEdges (insertOuts g preds) other.inputNodes = .error e) :
+    insertWorkflow g other preds = (g.compose other, some e) := by
+  unfold insertWorkflow
+  simp only [hc]
+
+theorem insert_refusal_witness :
+    let g : DiGraph := ⟨[0, 1], []⟩
+    let other : DiGraph := ⟨[2, 3, 4], []⟩
+    (insertWorkflow g other none).2 = some .valueError ∧ (insertWorkflow g other none).1.nodes = [0, 1, 2, 3, 4] := by
+  decide
+
+/-- **builder_ops_exact (`+`)**: the union of tasks and of edges. -/
+theorem plus_exact (g h : DiGraph) (hg : WF g) (hh : WF h) :
+    WF (plus g h) ∧ (∀ x, x ∈ (plus g h).nodes ↔ x ∈ g.nodes ∨ x ∈ h.nodes) ∧
+    (∀ e, e ∈ (plus g h).edges ↔ e ∈ g.edges ∨ e ∈ h.edges) :=
+  ⟨compose_wf, fun _ => compose_nodes_mem hg hh, fun _ => compose_edges_mem hg hh⟩
+
 end Pharmpy.C17
